@@ -385,65 +385,83 @@ struct Holder
 //  8 round trip through a temporary: tmp = obj; obj = used; obj = tmp
 //  9 fork: a copy is kept alive as a shadow that receives every later call too (both must behave alike, neither may
 //    disturb the other); the next event of kind 1-5 ends it
+// (If a class of the library under test is not copyable / movable / assignable any more, the events that need the missing
+// operation are skipped: the checks must keep building against whatever the working tree holds.)
 template <typename ImplT, typename Warm>
 static void lifecycleEvent(ImplT*& d, int how, Warm warm)
 {
+    using T = std::remove_reference_t<decltype(d->obj)>;
+    constexpr bool CC = std::is_copy_constructible_v<T>, MC = std::is_move_constructible_v<T>, CA = std::is_copy_assignable_v<T>,
+                   MA = std::is_move_assignable_v<T>, SW = std::is_swappable_v<T>;
     ImplT* n = nullptr;
     switch (how)
     {
         case 1:
-            n = new ImplT(d->obj);
+            if constexpr (CC)
+                n = new ImplT(d->obj);
             break;
         case 2:
-            n = new ImplT(std::move(d->obj));
+            if constexpr (MC)
+                n = new ImplT(std::move(d->obj));
             break;
         case 3:
-            n = new ImplT;
-            warm(n->obj);
-            n->obj = d->obj;
+            if constexpr (CA)
+            {
+                n = new ImplT;
+                warm(n->obj);
+                n->obj = d->obj;
+            }
             break;
         case 4:
-            n = new ImplT;
-            warm(n->obj);
-            n->obj = std::move(d->obj);
+            if constexpr (MA)
+            {
+                n = new ImplT;
+                warm(n->obj);
+                n->obj = std::move(d->obj);
+            }
             break;
         case 5:
-        {
-            n = new ImplT;
-            warm(n->obj);
-            using std::swap;
-            swap(n->obj, d->obj);
+            if constexpr (SW)
+            {
+                n = new ImplT;
+                warm(n->obj);
+                using std::swap;
+                swap(n->obj, d->obj);
+            }
             break;
-        }
         case 6:
-        {
-            auto& a = d->obj;
-            auto* volatile pb = &d->obj;
-            a = *pb;
+            if constexpr (CA)
+            {
+                auto& a = d->obj;
+                auto* volatile pb = &d->obj;
+                a = *pb;
+            }
             break;
-        }
         case 7:
-        {
-            ImplT* c = new ImplT(d->obj);
-            warm(c->obj);
-            delete c;
+            if constexpr (CC)
+            {
+                ImplT* c = new ImplT(d->obj);
+                warm(c->obj);
+                delete c;
+            }
             break;
-        }
         case 8:
-        {
-            ImplT* tmp = new ImplT;
-            tmp->obj = d->obj;
-            ImplT* used = new ImplT;
-            warm(used->obj);
-            d->obj = used->obj;
-            d->obj = tmp->obj;
-            delete used;
-            delete tmp;
+            if constexpr (CA)
+            {
+                ImplT* tmp = new ImplT;
+                tmp->obj = d->obj;
+                ImplT* used = new ImplT;
+                warm(used->obj);
+                d->obj = used->obj;
+                d->obj = tmp->obj;
+                delete used;
+                delete tmp;
+            }
             break;
-        }
         case 9:
             // fork: the copy lives on next to the original and is given the same calls from now on
-            d->shadow = std::make_unique<std::remove_reference_t<decltype(d->obj)>>(d->obj);
+            if constexpr (CC)
+                d->shadow = std::make_unique<T>(d->obj);
             break;
         default:
             break;
@@ -453,6 +471,19 @@ static void lifecycleEvent(ImplT*& d, int how, Warm warm)
         delete d;
         d = n;
     }
+}
+
+template <typename W, typename ImplT>
+static std::unique_ptr<W> cloneWrapper(const ImplT* d, ImplT* W::*slot)
+{
+    using T = std::remove_cv_t<std::remove_reference_t<decltype(d->obj)>>;
+    auto c = std::make_unique<W>();
+    if constexpr (std::is_copy_constructible_v<T>)
+    {
+        delete (c.get()->*slot);
+        c.get()->*slot = new ImplT(d->obj);
+    }
+    return c;
 }
 
 static Packet warmPacket(uint8_t mtype, uint8_t ptype, size_t len)
@@ -1075,10 +1106,7 @@ bool Enc::encodeAborted(const std::vector<MsgSpec>& batch, size_t minBytes, size
 
 std::unique_ptr<Enc> Enc::clone() const
 {
-    auto c = std::make_unique<Enc>();
-    delete c->d;
-    c->d = new Impl(d->obj);
-    return c;
+    return cloneWrapper<Enc, Impl>(d, &Enc::d);
 }
 uint64_t Enc::shadowDiverged() const
 {
@@ -1233,10 +1261,7 @@ void Dec::setPacketLife(uint64_t seed)
 }
 std::unique_ptr<Dec> Dec::clone() const
 {
-    auto c = std::make_unique<Dec>();
-    delete c->d;
-    c->d = new Impl(d->obj);
-    return c;
+    return cloneWrapper<Dec, Impl>(d, &Dec::d);
 }
 uint64_t Dec::lastCallEdges() const
 {
@@ -1368,10 +1393,7 @@ bool Stat::removeIf(uint16_t dev, uint32_t ifid)
 }
 std::unique_ptr<Stat> Stat::clone() const
 {
-    auto c = std::make_unique<Stat>();
-    delete c->d;
-    c->d = new Impl(d->obj);
-    return c;
+    return cloneWrapper<Stat, Impl>(d, &Stat::d);
 }
 uint64_t Stat::digestAll() const
 {
